@@ -188,6 +188,39 @@ pub fn run(o: &Opts) {
       out.case(47, &vl![wire_args, wire_rules, wire_files], &exp, &format!("rule selection: {}", what.chars().take(400).collect::<String>()));
     }
   }
+  // ---- files scanned as several documents (an HTML page hosting script and style): the exit status counts the
+  //      error-severity findings of EVERY document of every file
+  {
+    let cases: Vec<(&str, &str, bool)> = vec![
+      // (page, which rule is `error`, must the scan fail?)
+      ("<marquee>hi</marquee>\n<script>let a = 1</script>\n", "host", true),
+      ("<marquee>hi</marquee>\n<script>foo(1)</script>\n<style>a { color: red; }</style>\n", "host", true),
+      ("<p>hi</p>\n<script>foo(1)</script>\n<style>a { color: red; }</style>\n", "script", true),
+      ("<p>hi</p>\n<script>foo(1)</script>\n<script lang=\"javascript\">let b = 2</script>\n", "script", true),
+      ("<p>hi</p>\n<script>let c = 3</script>\n", "host", false),
+      ("<marquee>x</marquee>\n<script>foo(2)</script>\n", "none", false),
+    ];
+    for (ci, (page, err_rule, want_fail)) in cases.iter().enumerate() {
+      let p = fresh_dir(&o.out, &format!("multi_doc_{ci}"));
+      std::fs::create_dir_all(p.join("rules")).unwrap();
+      std::fs::write(p.join("sgconfig.yml"), "ruleDirs: [rules]\n").unwrap();
+      let sev = |r: &str| if *err_rule == r { "error" } else { "warning" };
+      std::fs::write(p.join("rules/host.yml"), format!("id: no-marquee\nlanguage: html\nseverity: {}\nmessage: m\nrule:\n  kind: element\n  regex: '^<marquee'\n", sev("host"))).unwrap();
+      std::fs::write(p.join("rules/script.yml"), format!("id: no-foo\nlanguage: JavaScript\nseverity: {}\nmessage: m\nrule:\n  pattern: foo($A)\n", sev("script"))).unwrap();
+      std::fs::write(p.join("page.html"), page).unwrap();
+      std::fs::write(p.join("plain.js"), "bar(1)\n").unwrap();
+      let r = sg(&p, &["scan", "--json=stream"], None, 60);
+      out.checked();
+      out.count("exit-status:multi-document-file");
+      let recs = json_lines(&r.stdout).unwrap_or_default();
+      let has_error = recs.iter().any(|v| v["severity"] == "error");
+      let failed = r.code != Some(0);
+      if r.timed_out || has_error != *want_fail || failed != *want_fail {
+        out.oracle_fail("", &format!("sg scan on an HTML page hosting script/style ({page:?}, error rule: {err_rule}): exit status {:?}, findings with severity error: {has_error}; expected the scan to {}", r.code, if *want_fail { "fail (an error-severity finding exists)" } else { "succeed" }),
+          json!({"stream": "c15-exit-multi-document", "page": page}));
+      }
+    }
+  }
   out.finish("generated projects (sgconfig.yml, a rule directory with 2-6 rules over 4 languages, severities error/warning/info/hint/off, files / ignores globs from a pool, ~25 source files of every extension of those languages \
               plus foreign files in nested directories, each containing a match of every rule), `sg scan --json=stream` from the project root with no flags and with random combinations of --error/--warning/--info/--hint/--off \
               (bare and with ids, conflicting ones included) and --filter: the (file, rule) pairs reported and the exit status against language / globs / effective severity computed from the property text (globs by globset directly), \
